@@ -75,9 +75,26 @@ class Interner:
         return {"t": "other", "id": self.s(repr(v))}
 
 
-def validate(module, records, tag, chunk=1500, timeout=1800, constants=None, ck=None):
-    """Run TLC over the records in chunks; return {tid: verdict-dict}."""
+def validate(module, records, tag, chunk=1500, timeout=1800, constants=None, ck=None, canary=None):
+    """Run TLC over the records in chunks; return {tid: verdict-dict}.
+
+    canary(record) -> corrupted copy (or None): binding demonstration on every run - one real record is
+    corrupted in one field and appended; the specification must reject it, otherwise the trace spec constrains
+    nothing (MachineryFailure)."""
     verdicts = {}
+    canaries = []
+    if canary is not None:
+        import copy
+        for r in records:
+            c = canary(copy.deepcopy(r))
+            if c is not None:
+                c["tid"] = "canary:%d" % len(canaries)
+                canaries.append(c)
+                if len(canaries) >= 3:
+                    break
+        if not canaries:
+            raise MachineryFailure("no record could be corrupted for the canary of %s" % module)
+        records = list(records) + canaries
     d = os.path.join(BUILD, "traces")
     os.makedirs(d, exist_ok=True)
     for c in range(0, len(records), chunk):
@@ -99,4 +116,8 @@ def validate(module, records, tag, chunk=1500, timeout=1800, constants=None, ck=
             raise MachineryFailure("TLC returned no verdict for %d of %d traces (first %r) in %s\n%s" % (
                 len(missing), len(part), missing[0], module, r.out[-1500:]))
         os.remove(path)
+    for c in canaries:
+        v = verdicts.pop(c["tid"])
+        if v["verdict"] in ("ok", "skipped-excluded"):
+            raise MachineryFailure("%s accepted a deliberately corrupted record (canary): the trace specification is vacuous" % module)
     return verdicts
